@@ -64,7 +64,7 @@ def _setup(b, case):
     out = Opaque('output', {'out': lambda I_, o, a, k: flushed.items.append(('out', a[0])), 'newline': lambda I_, o, a, k: None,
                             'flush': lambda I_, o, a, k: flushed.items.append(('flush',))})
     lib.provide(b, il.ns['Output'], out)
-    m.attrs['_vm_io'].attrs['_unnamed'].items.append(b.sym('int', 'pending_value'))
+    b.I.getattr_(m.attrs['_vm_io'], '_unnamed').items.append(b.sym('int', 'pending_value'))
     return {'self': m, '_flushed': flushed}
 c.setup(_setup)
 c.bounded('a 4-instruction program; the flag discipline is per loop pass')
